@@ -434,3 +434,68 @@ Proof.
     + intros [Hw|[]]; discriminate.
     + exists []. simpl. split; auto. split; auto. lia.
 Qed.
+
+(* ---- no lost wake-up for positive weights: the front waiter never fits ---- *)
+
+Definition sfront (s : sstate) : Prop :=
+  match s_waiters s with (_, n) :: _ => 0 < n -> s_size s - s_cur s < n | [] => True end.
+
+Lemma snotify_front s s' e : snotify s = (s', e) -> sfront s'.
+Proof.
+  unfold snotify. destruct (notify (s_size s) (s_cur s) (s_waiters s)) as [[c ws] g] eqn:N.
+  intros H; inversion H; subst; clear H.
+  destruct (notify_spec _ _ _ _ _ _ N) as (pre & _ & _ & _ & _ & E5).
+  unfold sfront; simpl. destruct ws as [|[w n] r]; auto.
+Qed.
+
+Lemma sfront_step s op : sfront s -> senabled s op -> sfront (fst (sstep s op)).
+Proof.
+  intros F En. destruct op as [n|n|w|n|n|n]; simpl in *.
+  - destruct (n <? 0) eqn:E0; [apply Z.ltb_lt in E0; lia|].
+    destruct ((n <=? s_size s - s_cur s) && match s_waiters s with [] => true | _ => false end) eqn:E; simpl.
+    + apply andb_prop in E. destruct E as [_ E]. unfold sfront in *; simpl. destruct (s_waiters s); [auto|discriminate].
+    + destruct (s_size s <? n); simpl; [exact F|].
+      unfold sfront in *; simpl. destruct (s_waiters s) as [|[w0 n0] r]; simpl; [|exact F].
+      intros _. rewrite andb_true_r in E. apply Z.leb_gt in E. lia.
+  - destruct (n <? 0); simpl; auto.
+    destruct ((n <=? s_size s - s_cur s) && match s_waiters s with [] => true | _ => false end) eqn:E; simpl; auto.
+    apply andb_prop in E. destruct E as [_ E]. unfold sfront in *; simpl. destruct (s_waiters s); [auto|discriminate].
+  - destruct (mem w (s_doomed s)); simpl; [exact F|].
+    destruct (wmem w (s_waiters s)); simpl; auto.
+    destruct ((match s_waiters s with (w0, _) :: _ => w0 =? w | [] => false end) && (s_cur s <? s_size s)) eqn:E; simpl.
+    + match goal with |- context [snotify ?x] => destruct (snotify x) as [s2 e] eqn:N end.
+      simpl. eapply snotify_front; eauto.
+    + unfold sfront in *; simpl. destruct (s_waiters s) as [|[w0 n0] r]; simpl; auto.
+      destruct (w0 =? w) eqn:E0; simpl in *.
+      * apply Z.ltb_ge in E. destruct (wremove w r) as [|[w1 n1] r1]; auto. intros; lia.
+      * exact F.
+  - destruct (n <? 0) eqn:E0; [apply Z.ltb_lt in E0; lia|].
+    destruct (s_cur s - n <? 0) eqn:E1; [apply Z.ltb_lt in E1; lia|].
+    match goal with |- context [snotify ?x] => destruct (snotify x) as [s2 e] eqn:N end.
+    simpl. eapply snotify_front; eauto.
+  - match goal with |- context [snotify ?x] => destruct (snotify x) as [s2 e] eqn:N end.
+    simpl. eapply snotify_front; eauto.
+  - destruct (n <? 0) eqn:E0; [apply Z.ltb_lt in E0; lia|]. simpl.
+    unfold sfront in *; simpl. destruct (s_waiters s) as [|[w0 n0] r]; auto. intros P. specialize (F P). lia.
+Qed.
+
+(* in every reachable state a front waiter with a positive weight does not fit: nobody who could be
+   served is left waiting (for weight 0 see the remark [zero_weight_waiter_can_stay] below) *)
+Lemma sem_no_lost_wakeup s : sreach s -> sfront s.
+Proof.
+  induction 1.
+  - unfold sfront; simpl; auto.
+  - apply sfront_step; auto.
+Qed.
+
+(* Remark, not a violation of the property's three semaphore clauses: size 1 held, w1 asks 1, w2 asks 0
+   behind it, w1 is cancelled.  cur = size, so the cancellation branch does not call notifyWaiters and
+   the zero-weight call w2 stays in the list although it "fits" (it is served by the next Release /
+   SetSize).  Same as upstream x/sync/semaphore. *)
+Lemma zero_weight_waiter_can_stay :
+  let ops := [SAcquire 1; SAcquire 1; SAcquire 0; SCancel 1] in
+  svalid (sinit 1) ops /\
+  snd (srun (sinit 1) ops) = [[SGranted 0]; []; []; [SCancelled 1]] /\
+  s_waiters (fst (srun (sinit 1) ops)) = [(2, 0)] /\
+  s_size (fst (srun (sinit 1) ops)) - s_cur (fst (srun (sinit 1) ops)) = 0.
+Proof. vm_compute. intuition congruence. Qed.
